@@ -67,7 +67,7 @@ def index_text(text, suffix):
     key = suffix
     if key not in _ST:
         install_shim()
-        d = adapter.mkws({"t" + suffix: "program seed\nend program seed\n"})
+        d = adapter.mkws(dict(c08.HEADERS, **{"t" + suffix: "program seed\nend program seed\n"}))
         s, c = adapter.mkserver(d)
         adapter.did_open(s, c, d, "t" + suffix)
         _ST[key] = (d, s, c)
@@ -151,6 +151,9 @@ def mutate(text, rnd):
 
 
 ROBUST_EXTRA = [
+    "#define F(x) x\n#if F\ninteger :: a\n#endif\n", "#define FOO 1\nx = FOO\n#undef FOO\n#define FOO(a) a+1\ny = FOO(2)\n",
+    '#include "hloop.h"\n#include "hping.h"\ninteger :: a\n', "#define A A\n#if A\n#endif\n#if A == 1\n#endif\nx = A\n",
+    "#define A B\n#define B A\n#if A > 1\n#elif B\n#endif\nx = A + B\n", "#define F(a,b) a\n#define G(x) F(x,x)\ny = G(F(1,2))\n#if G(1)\n#endif\n",
     "#define M a \\\n  b\\1 \\\n  '\\d'\nx = M\n", "#define F(a) a+ \\\n  \\g<9>a\ny = F(1)\n", "#define Q \\\n\\\n\\\nz = Q\n",
     "procedure(f) :: g\n", "#define X 1 \\\n\ninteger :: a\n", "#define X 1 \\", "#define A \\1\ninteger :: A\n",
     "#else\n#endif\n#elif 1\n", "#endif\n", "#if\n#elif\n#else\n#else\n#endif\n#endif\n",
@@ -164,11 +167,14 @@ ROBUST_EXTRA = [
 ]
 
 
+LONG_RUNS = ["a", "very_long_name_", "9", "_", "%", "a%", "(", ")", "()", "(a", " ", "&", "'", '"', "!", ":", ",", "=", "*", "a(1)%", "1234567890", "\\", ";", "a b "]
+
+
 def main(tier, seed):
     ck = Check("C03", tier, seed)
     rnd = random.Random(seed)
     ck.assumptions = [
-        "texts are statement-level: prefixes of valid programs, sequences over the robust statement alphabet, directive files, a catalogue of hostile fragments, and one-character/one-line mutations of all of those and of the sample sources; arbitrary byte strings are not enumerated",
+        "texts are statement-level: prefixes of valid programs, sequences over the robust statement alphabet, directive and macro-table files of Preproc.tla, long runs of one character class in every statement position, a catalogue of hostile fragments, and one-character/one-line mutations of all of those and of the sample sources; arbitrary byte strings are not enumerated",
         "time bound: 5 s CPU per text of <= 60 lines, measured in the worker; a worker that stalls is killed and the text reported as a hang",
     ]
     for cfg, req in (("FortranScopes_MC.cfg", ["OpenUnit", "End"]), ("FortranScopes_MCrobust.cfg", ["ROpen", "REnd", "RStmt", "Garbled"])):
@@ -215,6 +221,25 @@ def main(tier, seed):
         lines, _init = c08.render(dict(st, frames=[]))
         texts.append(("module m\n" + "\n".join(lines) + "\nend module m\n", ".F90", "directives"))
     ck.add_tlc("Preproc_GenSkel(open conditionals)", info["result"])
+    # macro tables: object-like and function-like definitions, #undef and redefinition, uses and call forms,
+    # conditions on macros of either kind and on macros naming each other, headers that include themselves
+    for cfg, every in (("Preproc_Gen_%s.cfg" % tier, 25 if tier == "quick" else 5), ("Preproc_GenMacro.cfg", 40 if tier == "quick" else 8)):
+        info = {}
+        n = 0
+        for st in tlc.dump_states("Preproc", cfg, info=info, timeout=3000, prefilter=lambda t: "define" in t or "include" in t):
+            n += 1
+            if n % every:
+                continue
+            lines, init = c08.render(dict(st, frames=[]))
+            pre = ["#define %s %s" % (k, v) for k, v in sorted(init.items())]
+            texts.append(("\n".join(pre + lines) + "\n", ".F90", "macros"))
+        ck.add_tlc(cfg[:-4] + "(macro files)", info["result"])
+    # long runs of one character class in every statement position (regular expressions that backtrack)
+    for run in LONG_RUNS:
+        for n in (40, 400):
+            for pre in ("", "call ", "integer :: ", "x = ", "use ", "#define ", "#if ", "      ", "c"):
+                for post in ("", " =", "(", ")", "'"):
+                    texts.append((pre + run * (n // len(run)) + post + "\n", ".F90" if pre.startswith("#") else (".f" if pre in ("      ", "c") else ".f90"), "long-run"))
     for frag in ROBUST_EXTRA:
         for suf in (".f90", ".F90", ".f"):
             texts.append((frag, suf, "catalogue"))
@@ -235,7 +260,7 @@ def main(tier, seed):
             texts.append(("\n".join(lines[:i]), suf, "sample-prefix"))
         for _ in range(6 if tier == "quick" else 40):
             texts.append((mutate(t, rnd), suf, "sample-mutation"))
-    base = [t for t in texts if t[2] in ("prefix", "robust", "directives", "catalogue")]
+    base = [t for t in texts if t[2] in ("prefix", "robust", "directives", "catalogue", "macros")]
     for _ in range(4000 if tier == "quick" else 60000):
         t, suf, o = rnd.choice(base)
         texts.append((mutate(t, rnd), suf, o + "-mutation"))
